@@ -84,6 +84,17 @@ CLAIMED = {
     note="parse and str are pymbolic's table-driven parser and stringifier: no function within reach has a contract implying the round trip. Known printer/parser defects D18, D33-D36 listed by fingerprint.",
     technique="bounded contract check (exploration); one helper under contract-based deductive verification",
     ref="6/C19"),
+
+ "C17": dict(cat="proof",
+    text="RELATIVE to the soundness of pymbolic's UnidirectionalUnifier (A-UNIF). _ExtendedUnifier.map_call is proved to return only records that extend an input record and unify the function symbols and every aligned positional/keyword argument pair (hence the calls), and to return no record for class, arity or keyword-name mismatches; map_modulo_identity is proved sound (the target is replaced by op(identity, target), of equal value); map_sum / map_product are proved to pass the inherited mapper of the same operator and its identity 0 / 1.",
+    note="Records and `unifies` are abstract (uninterpreted); match() itself (parsing, pre_match record, records[0], ValueError) and A-UNIF are covered only by the bounded stand-in (substitute back and evaluate at random rational points under random function tables; 3.4k matches checked in the quick tier).",
+    technique="contract-based deductive verification relative to an assumed contract on the external unifier; loop invariant over argument pairs",
+    ref="6/C17"),
+ "C18": dict(cat="proof",
+    text="RELATIVE to the constant finder's postcondition and A-ID. _ExpressionCollapsingMapper.rec and map_commut_assoc are proved, over an abstract value semantics with + / * as one commutative-associative operator (AC identities decided in (Z,+)), to return an expression that has the value of the input once hoisted variables denote their assigned expressions; every recorded assignment is proved to be a constant expression assigned exactly once to a variable freshly obtained from new_var_func; combine_func never receives an empty operand list; map_sum / map_product delegate with their own constructor.",
+    note="Assumed: _ConstantFindingMapper marks only variable-free subexpressions constant (bounded monitor; false for LogicalNot: finding D41 KeyError); inherited IdentityMapper methods preserve value. collapse_constants' three-line driver is in the bounded stand-in (6k expressions x free-variable subsets).",
+    technique="contract-based deductive verification with an abstract AC value semantics and ghost accumulators",
+    ref="6/C18"),
 }
 
 NOT_APPLICABLE = {
